@@ -87,7 +87,7 @@ Definition prem (c : case) : bool :=
   match c with
   | CPrem tys p => wf_prog tys p && r_table tys
   (* the premises of the theorems about the extended language (spec/Builder2WFS.v) *)
-  | CPrem2 tys p => croot_ok p && r_table tys
+  | CPrem2 tys p => croot_ok p && wt_prog2 tys p && r_table tys
   | _ => true
   end.
 
